@@ -19,7 +19,7 @@ def has_exists_after_nnf(c, neg=False):
 
 
 def classify(case, failure):
-    q, dspec = case
+    q, dspec = case[:2]
     _, kind, sels, c, decls = q
     subs = list(fol.subconds(c)) if c else []
     # (Python bool constants as conditions were findings C01-F3/F4/F5; repaired, no longer classified)
